@@ -1,6 +1,106 @@
-(* C03 -- placeholder while the correspondence is brought up *)
+(* C03 -- a sender never exceeds the flow-control and stream limits its peer granted.
+   Property theorems only; each is closed by [exact] of a lemma proved in proofs/. *)
 From SQ Require Import lib.Base gen.Gen_C12.
-From SQ Require model.DataSender model.SendJudge.
-Theorem C03_min_write_size_is_32 : Gen_C12.min_write_size = 32%N.
+From SQ Require model.DataSender model.SendJudge model.StreamId proofs.SendProofs proofs.StreamIdProofs.
+Import DataSender SendJudge.
+Local Open Scope N_scope.
+
+(* every acquisition of connection credit by a stream is exact: what the stream gains the connection
+   loses, the total (the peer's MAX_DATA) is untouched, the window handed back is the minimum of the
+   stream limit and the credit acquired, and a request that is not blocked is granted in full *)
+Theorem C03_conn_credit_exact : forall c f e c' f' w, sfc_acquire c f e = (c', f', w) ->
+  c_total c' = c_total c /\ f_acq f' + c_avail c' = f_acq f + c_avail c /\ f_acq f <= f_acq f' /\
+  f_maxsd f' = f_maxsd f /\ w = N.min (f_maxsd f') (f_acq f') /\
+  (sfc_is_blocked f' = false -> f_st f <> 3 -> e <= w) /\ (f_st f' = 3 -> f_st f = 3).
+Proof. exact SendProofs.acquire_ok. Qed.
+
+(* MAX_DATA: the total becomes the maximum of everything received (non-increasing values are ignored)
+   and only the increase is credited *)
+Theorem C03_max_data_is_max : forall c v,
+  c_total (cfc_max_data c v) = N.max (c_total c) v /\
+  c_avail (cfc_max_data c v) + c_total c = c_avail c + c_total (cfc_max_data c v).
+Proof.
+  intros c v. unfold cfc_max_data. destruct (v <=? c_total c) eqn:E; cbn;
+    [apply N.leb_le in E|apply N.leb_gt in E]; lia.
+Qed.
+
+(* what transmit_interval puts on the wire: one STREAM frame of the stream, carrying exactly the
+   position-keyed bytes lo .. h, ending inside the requested interval, inside the stream limit and
+   inside the connection credit the stream holds *)
+Theorem C03_stream_frame_within_window : forall salt s c p lo hi h s' c' p',
+  tx_interval salt s c p lo hi = (Some h, s', c', p') ->
+  (exists size fin, p' = p_write p size (mk_frame 1 (s_sid s) lo 0 fin (slice salt (s_k s) lo (h - lo))) /\ size <= p_rem p)
+  /\ lo < h /\ h <= hi
+  /\ h <= f_maxsd (s_fc s') /\ h <= f_acq (s_fc s')
+  /\ c_total c' = c_total c /\ f_acq (s_fc s') + c_avail c' = f_acq (s_fc s) + c_avail c
+  /\ f_maxsd (s_fc s') = f_maxsd (s_fc s) /\ f_acq (s_fc s) <= f_acq (s_fc s').
+Proof. exact SendProofs.tx_interval_frame. Qed.
+
+(* one packet, any target / capacity / constraint / mode: every frame the model emits is accepted by
+   the C03 monitor (STREAM end offset <= largest MAX_STREAM_DATA received so far; connection-wide sum of
+   highest offsets and announced final sizes <= largest MAX_DATA received so far), and the invariant
+   "monitor usage <= acquired credit, sum of acquired credit + available = total = largest MAX_DATA"
+   is re-established *)
+Theorem C03_packet_within_limits : forall salt n k m t cap cons md k' fs,
+  SendProofs.INV03 n k m -> cap < 65536 ->
+  conn_transmit salt k t cap cons md = (k', fs) ->
+  exists m', chk_frames (chk03 salt n) n m fs = Some m' /\ SendProofs.INV03 n k' m'.
+Proof. exact SendProofs.conn_transmit_ok. Qed.
+
+(* conn_credit_exact, all histories: in every state the driver can reach (any number of streams, any
+   operation sequence) the credit held by the streams plus the credit still available equals the
+   total granted by the peer; the invariant INV03 also carries: total = largest MAX_DATA received *)
+Theorem C03_credit_exact_reachable : forall fuel salt n k ops, 0 < n ->
+  (exists m, SendProofs.INV03 n k m) ->
+  let k' := SendProofs.exec fuel salt n k ops in
+  SendProofs.sum_acq (k_streams k') + c_avail (k_flow k') = c_total (k_flow k').
+Proof. exact SendProofs.credit_exact_reachable. Qed.
+
+Theorem C03_credit_invariant_step : forall salt n k m op r out k' r', 0 < n -> SendProofs.INV03 n k m ->
+  step salt n k op r = Some (out, k', r') -> exists m', SendProofs.INV03 n k' m'.
+Proof. exact SendProofs.INV03_step. Qed.
+
+(* all histories: the executable judgement (stream_frame_within_limits and the connection-limit half of
+   reset_final_size_within_limits, recomputed from the operations alone) accepts every run of the model *)
+Theorem C03_ss_judge_run : forall case, judge03 case (DataSender.run case) = true.
+Proof. exact SendProofs.judge03_run. Qed.
+
+(* the stream-limit half of reset_final_size_within_limits is FALSE of the faithful model (and of the
+   implementation: KNOWN_FINDINGS class reset_final_size_is_acquired_conn_credit_above_stream_limit):
+   MAX_DATA 1000, MAX_STREAM_DATA 10, write 100, transmit, reset, transmit -> final size 100 *)
+Theorem C03_reset_final_size_within_stream_limit_refuted :
+  judge03r [1; 1000; 0; 0; 10; 1; 0; 100; 5; 1; 200; 0; 0; 3; 0; 7; 5; 1; 200; 0; 0]%Z
+           (DataSender.run [1; 1000; 0; 0; 10; 1; 0; 100; 5; 1; 200; 0; 0; 3; 0; 7; 5; 1; 200; 0; 0]%Z) = false.
+Proof. vm_compute. reflexivity. Qed.
+
+(* streams: an id is handed out only while opened < largest MAX_STREAMS received, so its stream index
+   is below that limit *)
+Theorem C03_streams_opened_within_limit : forall server t c y id c',
+  StreamIdProofs.Inv server t c y -> StreamId.l_open server t c = (Some id, c') ->
+  StreamId.ok03 server t y id = true.
+Proof. exact StreamIdProofs.open_ok03. Qed.
+
+Theorem C03_st_judge_run : forall case, StreamId.judge03 case (StreamId.run case) = true.
+Proof. exact StreamIdProofs.judge03_run. Qed.
+
+Theorem C03_stream_id_step_is_4 : Gen_C12.stream_id_step = 4.
 Proof. reflexivity. Qed.
-Print Assumptions C03_min_write_size_is_32.
+
+(* non-vacuity: a run with two streams sharing a connection window of 50 *)
+Example C03_example :
+  judge03 [5; 50; 1; 0; 1000; 1000; 1; 0; 100; 1; 1; 100; 5; 0; 1200; 0; 0; 9; 40; 9; 60; 5; 0; 1200; 0; 0]%Z
+    (DataSender.run [5; 50; 1; 0; 1000; 1000; 1; 0; 100; 1; 1; 100; 5; 0; 1200; 0; 0; 9; 40; 9; 60; 5; 0; 1200; 0; 0]%Z) = true
+  /\ length (DataSender.run [5; 50; 1; 0; 1000; 1000; 1; 0; 100; 1; 1; 100; 5; 0; 1200; 0; 0; 9; 40; 9; 60; 5; 0; 1200; 0; 0]%Z) = 165%nat.
+Proof. split; vm_compute; reflexivity. Qed.
+
+Print Assumptions C03_conn_credit_exact.
+Print Assumptions C03_max_data_is_max.
+Print Assumptions C03_stream_frame_within_window.
+Print Assumptions C03_packet_within_limits.
+Print Assumptions C03_credit_exact_reachable.
+Print Assumptions C03_credit_invariant_step.
+Print Assumptions C03_ss_judge_run.
+Print Assumptions C03_reset_final_size_within_stream_limit_refuted.
+Print Assumptions C03_streams_opened_within_limit.
+Print Assumptions C03_st_judge_run.
+Print Assumptions C03_stream_id_step_is_4.
